@@ -94,6 +94,14 @@ def algebra(ctx, count):
         n = rng.choice([1, 2, 3, 4, 5])
         shape = eems.rand_shape(rng)
         xs = [eems.rand_array(rng, shape, float, eems.FUZZY_LATTICE) for _ in range(n)]
+        # on binary fractions every identity holds bit for bit (sums of them do not round); a third of the cases hold measured decimals instead, where the
+        # identities that involve no sum (negation, maximum, minimum, the single truest / falsest value) are still exact and the others hold within rounding
+        decimals = rng.random() < 0.33
+        if decimals:
+            for a in xs:
+                d_ = numpy.ma.getdata(a)
+                d_[...] = numpy.array([round(rng.uniform(-1, 1), rng.choice([1, 2, 3])) for _k in range(d_.size)]).reshape(d_.shape)
+        t_sum = common.TOL if decimals else 0
         desc = Case("FuzzyOr", {}, xs).describe()
         ctx.case("algebra " + desc["protocol"], sample=None)
         ctx.count("c06_algebra_cases")
@@ -107,20 +115,20 @@ def algebra(ctx, count):
         v_or, v_and, v_un = numeric.vals_of(o_or), numeric.vals_of(o_and), numeric.vals_of(o_un)
         # Not is an involution
         nn = ex("FuzzyNot", [ex("FuzzyNot", [xs[0]])["result"]])
-        if numeric.first_diff(numeric.vals_of(nn), numeric.vis_inputs(Case("FuzzyNot", {}, [xs[0]]))[0]):
+        if numeric.first_diff(numeric.vals_of(nn), numeric.vis_inputs(Case("FuzzyNot", {}, [xs[0]]))[0], 0):
             ctx.fail("FuzzyNot(FuzzyNot(x)) != x", desc)
         # De Morgan: Not(Or(xs)) = And(Not xs), Not(And(xs)) = Or(Not xs)
         nots = [ex("FuzzyNot", [x])["result"] for x in xs]
-        if numeric.first_diff(numeric.vals_of(ex("FuzzyNot", [o_or["result"]])), numeric.vals_of(ex("FuzzyAnd", nots))):
+        if numeric.first_diff(numeric.vals_of(ex("FuzzyNot", [o_or["result"]])), numeric.vals_of(ex("FuzzyAnd", nots)), 0):
             ctx.fail("Not(Or(xs)) != And(Not(xs))", desc)
-        if numeric.first_diff(numeric.vals_of(ex("FuzzyNot", [o_and["result"]])), numeric.vals_of(ex("FuzzyOr", nots))):
+        if numeric.first_diff(numeric.vals_of(ex("FuzzyNot", [o_and["result"]])), numeric.vals_of(ex("FuzzyOr", nots)), 0):
             ctx.fail("Not(And(xs)) != Or(Not(xs))", desc)
         # And <= Union <= Or
         for a, u, o in zip(v_and, v_un, v_or):
             if len(set(x is None for x in (a, u, o))) > 1:
                 ctx.fail("And, Union and Or of the same inputs disagree on which cells are missing: %r %r %r" % (a, u, o), desc)
                 break
-            if a is not None and not (a <= u + 1e-12 and u <= o + 1e-12):
+            if a is not None and not (a <= u + 1e-12 * bool(decimals) and u <= o + 1e-12 * bool(decimals)):
                 ctx.fail("And <= Union <= Or violated: %r %r %r" % (a, u, o), desc)
                 break
         # SelectedUnion coincidences
@@ -130,11 +138,11 @@ def algebra(ctx, count):
         if not (s1 and f1 and sa):
             ctx.fail("FuzzySelectedUnion failed for admissible k", desc)
             continue
-        if numeric.first_diff(numeric.vals_of(s1), v_or):
+        if numeric.first_diff(numeric.vals_of(s1), v_or, 0):
             ctx.fail("SelectedUnion(Truest, 1) != Or", desc)
-        if numeric.first_diff(numeric.vals_of(f1), v_and):
+        if numeric.first_diff(numeric.vals_of(f1), v_and, 0):
             ctx.fail("SelectedUnion(Falsest, 1) != And", desc)
-        if numeric.first_diff(numeric.vals_of(sa), v_un):
+        if numeric.first_diff(numeric.vals_of(sa), v_un, t_sum):
             ctx.fail("SelectedUnion(k = all) != Union", desc)
 
 
